@@ -3022,10 +3022,22 @@ SKIP_HSHEADER_PARSE:
     case SSL_HS_CERTIFICATE_VERIFY:
 
         psAssert(rc == 0); /* checking to see if this is the correct default */
-        rc = parseCertificateVerify(ssl, hsMsgHash, &c, end);
-        if (rc < 0)
         {
-            return rc;
+            unsigned char *cvStart = c;
+
+            rc = parseCertificateVerify(ssl, hsMsgHash, &c, end);
+            if (rc < 0)
+            {
+                return rc;
+            }
+            /* The signature must be all there is: bytes between its end and
+                the end of the message are not a further handshake message */
+            if ((uint32) (c - cvStart) != hsLen)
+            {
+                ssl->err = SSL_ALERT_DECODE_ERROR;
+                psTraceErrr("Invalid Certificate Verify message length\n");
+                return MATRIXSSL_ERROR;
+            }
         }
 
         break;
